@@ -330,7 +330,11 @@ def keepdims_vs_parentheses(case):
     ins = [map_expr(e, f) for e in case.inputs]
     opts = dict(case.opts)
     opts.pop("keepdims")
-    return [("keepdims-vs-parentheses", _call(case), _call(case, ins, None, opts=opts))]
+    # the equivalence when the very same description was first used WITHOUT keepdims (the flag is a per-call argument); this pair comes first so
+    # that the plain call really is the first use of the description in the process
+    first = _call(case)
+    first["pre"] = [_call(case, opts=opts)]
+    return [("keepdims-after-plain-call", first, _call(case, ins, None, opts=opts)), ("keepdims-vs-parentheses", _call(case), _call(case, ins, None, opts=opts))]
 
 
 def extra_spaces(case, rng):
